@@ -117,6 +117,7 @@ for op in ("retrieve_invocation", "route_invocation"):
         "GET /broker/queue pops up to `limit` messages and routes them back", "input: queue of 5, GET /broker/queue?limit=2: order afterwards 3,4,5,1,2; a purged record raises between pop and re-route and the popped messages are lost", "findings/repro/r6_misc.py",
         "needs a peek operation in the broker interface (all broker backends, plugins included)")
 
+# each fix is also exported to /verif/fixes/<property>-<commit>.diff (git show <commit> --format=) so that the thorough tier can un-apply it
 fixed = [
     ("C02", "ea7eb1d", "MemOrchestrator._get_invocation_lock was a check-then-insert: two first-time claimers obtained two locks (C02/R3)"),
     ("C04", "19d5774", "recover_pending_invocations / recover_running_invocations stranded the invocations already taken when a later request lost a race (C04/R3, C03/R3)"),
